@@ -182,3 +182,28 @@ Proof.
   cbv zeta. split; [reflexivity|]. split; [repeat constructor; cbv; intuition discriminate|].
   vm_compute. repeat split; reflexivity.
 Qed.
+
+(* ---------------------------------------------------------------------------------------------
+   C16 ABOUT THE C TEXT: the translation theorems composed with the code-point theorems.  For the
+   UTF-8 encoding of ANY list of scalar values (shorter than 2^31 bytes) held at any block of memory,
+   the translated uc_slen, uc_chr and uc_off of /repo's uc.c return the number of characters, the
+   pointer to the k-th character (its byte offset is the total length of the first k encodings) and the
+   inverse conversion -- "character counts, offset conversions agree with code-point arithmetic". *)
+From NV Require Import TrUcSpec.
+Theorem C16_ctext_uc_slen : forall m b cs d fuel,
+  Forall scalar cs -> str_at m b (chars cs) -> (length (chars cs) < fuel)%nat -> Z.of_nat (length (chars cs)) <= 2147483647 ->
+  callf cprog fuel (S (S d)) F_uc_slen [VPtr b 0] m = Ok (VInt (Z.of_nat (length cs)), m).
+Proof. exact ctext_uc_slen. Qed.
+Print Assumptions C16_ctext_uc_slen.
+Theorem C16_ctext_uc_chr : forall m b cs k d fuel,
+  Forall scalar cs -> (k <= length cs)%nat -> str_at m b (chars cs) -> (length (chars cs) < fuel)%nat ->
+  Z.of_nat (length (chars cs)) <= 2147483647 ->
+  callf cprog fuel (S (S (S d))) F_uc_chr [VPtr b 0; VInt (Z.of_nat k)] m = Ok (VPtr b (Z.of_nat (off_of cs k)), m).
+Proof. exact ctext_uc_chr. Qed.
+Print Assumptions C16_ctext_uc_chr.
+Theorem C16_ctext_uc_off : forall m b cs k d fuel,
+  Forall scalar cs -> (k <= length cs)%nat -> str_at m b (chars cs) -> (length (chars cs) < fuel)%nat ->
+  Z.of_nat (length (chars cs)) <= 2147483647 ->
+  callf cprog fuel (S (S (S d))) F_uc_off [VPtr b 0; VInt (Z.of_nat (off_of cs k))] m = Ok (VInt (Z.of_nat k), m).
+Proof. exact ctext_uc_off. Qed.
+Print Assumptions C16_ctext_uc_off.
